@@ -58,7 +58,13 @@ pub fn gen_case(t: &mut Tape) -> Case {
     let hirs: Vec<_> = gen::parse_hir(&pattern, false, true, crlf, false).into_iter().collect();
     let mut input = if multiline { super::c13::gen_ml_haystack(t, &hirs, term) } else { gen::gen_haystack(t, &hirs, term, 10) };
     input.retain(|b| *b != 0);
-    if t.chance(1, 12) {
+    let mode = match t.weighted(&[5, 2, 3]) {
+        0 => Mode::Standard,
+        1 => Mode::Vimgrep,
+        _ => Mode::Json,
+    };
+    // (--vimgrep prints the whole line once per match: no very long lines there)
+    if mode != Mode::Vimgrep && t.chance(1, 12) {
         // a very long line
         let mut long: Vec<u8> = std::iter::repeat(b'z').take(5000 + t.below(70000)).collect();
         if let Some(h) = hirs.first() {
@@ -69,11 +75,6 @@ pub fn gen_case(t: &mut Tape) -> Case {
         let at = model::split_lines(&input, b'\n').get(t.below(3)).map(|l| l.start).unwrap_or(0);
         input.splice(at..at, long);
     }
-    let mode = match t.weighted(&[5, 2, 3]) {
-        0 => Mode::Standard,
-        1 => Mode::Vimgrep,
-        _ => Mode::Json,
-    };
     let with_filename = t.chance(1, 2);
     let invert = mode != Mode::Vimgrep && t.chance(1, 8);
     // under -v the column field follows the pattern's matches, not the
@@ -341,7 +342,7 @@ pub fn check(case: &Case) -> Verdict {
             }
         }
     }
-    let dir = TempDir::new("c09");
+    let dir = TempDir::fast("c09");
     dir.write("f", input);
     let rg = Rg::new(&dir.path).args(args(case));
     let cmd = rg.cmdline();
@@ -722,7 +723,7 @@ pub fn run(pc: &PropCtx) {
     pc.assume("which lines are selected is C01/C03's subject; here the per-line oracle is only used for columns and submatches");
     pc.assume("under -U the column is asserted only for the first line of a block; the trailing-empty-match shape recorded as a known finding under C10 is skipped and counted");
     pc.set_shrink_iters(300);
-    let cases = pc.tier.pick(6_000, 120_000);
+    let cases = pc.tier.pick(15_000, 200_000);
     pc.run_tape("records", cases, (128, 1500), gen_case, check);
     pc.require_class("records:column_checked", cases as u64 / 40);
     pc.require_class("records:submatches_checked", cases as u64 / 40);
